@@ -20,7 +20,7 @@ ASSUMPTIONS = ["tolerance 2e-4*(1+|x|) per step on qpos/qvel/act; time and warms
 
 XML = """
 <mujoco>
-  <option timestep="{dt}" integrator="{integ}" iterations="100" tolerance="1e-10"{cone}/>
+  <option timestep="{dt}" integrator="{integ}" iterations="100" tolerance="1e-10"{cone}>{flags}</option>
   <worldbody>
     <geom type="plane" size="3 3 .1"/>
     <body pos="0 0 {z}"><freejoint/><geom type="box" size=".1 .08 .06"/>
@@ -48,7 +48,13 @@ def _run(ctx, ncases, nsteps, rec):
       dyn = str(rng.choice(["none", "integrator", "filter", "filterexact"]))
       cone = ' cone="elliptic"' if rng.random() < 0.4 else ""
       dt = float(rng.choice([0.002, 0.005]))
-      xml = XML.format(dt=dt, integ=integ, cone=cone, z=float(rng.choice([0.07, 0.5])), damp=float(rng.choice([0.0, 0.4])), dyn=dyn)
+      # the integrators consult the DAMPER / EULERDAMP / SPRING disable bits (implicit damping in Euler, the velocity derivative in
+      # implicit*): flag subsets are part of the input space
+      fl = [f for f in ("damper", "eulerdamp", "spring") if rng.random() < 0.25]
+      if integ == "Euler":
+        fl = [["damper"], [], ["eulerdamp"], ["damper", "eulerdamp"]][(c // 4) % 4]   # the two bits that gate Euler's implicit damping, in rotation
+      flags = ("<flag " + " ".join(f'{f}="disable"' for f in fl) + "/>") if fl else ""
+      xml = XML.format(dt=dt, integ=integ, cone=cone, z=float(rng.choice([0.07, 0.5])), damp=0.4 if fl else float(rng.choice([0.0, 0.4])), dyn=dyn, flags=flags)
       mjm = mujoco.MjModel.from_xml_string(xml)
       mjd = mujoco.MjData(mjm)
       mjd.qvel[:] = rng.normal(size=mjm.nv)
@@ -84,7 +90,8 @@ def _run(ctx, ncases, nsteps, rec):
           break
       acc.distinct.add((integ, dyn, cone, dt))
       acc.hit(integ)
-      acc.sample({"integrator": integ, "dyntype": dyn, "cone": cone.strip(), "dt": dt})
+      acc.hit("flags:" + ("+".join(fl) or "none"))
+      acc.sample({"integrator": integ, "dyntype": dyn, "disabled": fl, "cone": cone.strip(), "dt": dt})
 
   if rec:
     kc, _ = intercept(KERNELS, scenario, rng, max_tids=16, per_kernel=3)
